@@ -1806,6 +1806,16 @@ fn oracle_c19c(fields: &[&str]) -> String {
         let mut t = t0;
         t.update(&[4.5]);
         check!(t.nth(0) == 4.5 && same(t.nth(1), t0.nth(1)), "update of a Coor32 from 1 value");
+        // the scalar product of two 32 bit tuples is that of their (exactly widened) elements: the products of
+        // two binary32 numbers are exact in binary64, so is the method's own definition and the trait's
+        let a = Coor32([v[0] as f32, v[1] as f32]);
+        let b = Coor32([v[2] as f32, v[3] as f32]);
+        let want = a[0] as f64 * b[0] as f64 + a[1] as f64 * b[1] as f64;
+        check!(same(a.dot(b), want), "Coor32::dot of {:?} and {:?} is {} instead of {}", a, b, a.dot(b), want);
+        // (the trait's default starts its sum at +0: equal as numbers, the sign of a zero aside)
+        let td = CoordinateTuple::dot(&a, b);
+        check!(td == want || (td.is_nan() && want.is_nan()), "CoordinateTuple::dot of two Coor32 is {} instead of {}", td, want);
+        check!(same(a.hypot2(&b), (a[0] as f64 - b[0] as f64).hypot(a[1] as f64 - b[1] as f64)), "hypot2 of two Coor32");
     }
     // set_xyz / set_xyzt: all or (too short) all-NaN; fill
     let mut w = c;
@@ -3397,6 +3407,19 @@ fn oracle_c06(fields: &[&str]) -> String {
             };
             if a != row.1 || (row.2 != 0.0 && f != 1.0 / row.2) || (row.2 == 0.0 && f != 0.0) {
                 return format!("oracle FAIL {}: a = {a}, f = {f}, published a = {}, rf = {}", fields[1], row.1, row.2);
+            }
+            // the triaxial type reads the same table: the same axes (the median axis equal to the major one) and
+            // the same flattening, zero for the spheres
+            match geodesy::ellps::TriaxialEllipsoid::named(fields[1]) {
+                Err(_) => return format!("oracle FAIL {} cannot be instantiated as a triaxial ellipsoid", fields[1]),
+                Ok(t) => {
+                    if t.semimajor_axis().to_bits() != a.to_bits() || t.flattening().to_bits() != f.to_bits() || t.semimedian_axis().to_bits() != a.to_bits() {
+                        return format!("oracle FAIL {} as a triaxial ellipsoid: a = {}, ay = {}, f = {}; the biaxial one has a = {a}, f = {f}", fields[1], t.semimajor_axis(), t.semimedian_axis(), t.flattening());
+                    }
+                    if !(t.semiminor_axis() - b).abs().le(&(1e-9 * a)) {
+                        return format!("oracle FAIL {} as a triaxial ellipsoid: semi-minor axis {}, the biaxial one has {b}", fields[1], t.semiminor_axis());
+                    }
+                }
             }
             let pa: f64 = fields[2].parse().unwrap_or(f64::NAN);
             let prf: f64 = fields[3].parse().unwrap_or(f64::NAN);
